@@ -11,8 +11,8 @@
 //! untracked file (the "file edited on disk" direction).
 //!
 //! Reference model (this file): a whole-file definition of "LF-stored text" (no NUL, no CR),
-//! the documented probe for "binary" (NUL or lone CR inside the first 8 KiB, with a safety
-//! margin at the limit where the documentation allows misclassification), byte-wise LF->CRLF
+//! the documented probe for "binary" (NUL or lone CR inside the first 8 KiB; a CR in the last
+//! probed byte and anything later is where the documentation allows misclassification), byte-wise LF->CRLF
 //! and CRLF->LF maps. Contents the statement does not speak about (stored CRLF, evidence only
 //! at/after the probe limit) must come out as one of the two documented treatments.
 
@@ -149,9 +149,10 @@ enum Class {
 }
 
 fn classify(b: &[u8]) -> Class {
-    // The documented probe looks at the first 8 KiB; a CR in the last probed byte is the
-    // documented ambiguity. Evidence strictly before that byte is always seen.
-    let always_seen = if b.len() < PROBE_LIMIT { b.len() } else { PROBE_LIMIT - 1 };
+    // The documented probe examines the first 8 KiB. A CR in the last probed byte of a longer
+    // file is the documented ambiguity (it may be half of a CRLF); evidence after the probed
+    // part is never seen. Everything else inside the probed part is always seen.
+    let probed = b.len().min(PROBE_LIMIT);
     let mut strict_binary = false;
     let mut any_binary = false;
     let mut any_cr = false;
@@ -166,13 +167,12 @@ fn classify(b: &[u8]) -> Class {
         };
         if evidence {
             any_binary = true;
-            // a lone CR is only certainly recognised when the byte after it is probed too
             let certainly_seen = if c == 0 {
-                i < always_seen
-            } else if b.len() < PROBE_LIMIT {
-                true
+                i < probed
             } else {
-                i + 1 < always_seen
+                // a lone CR is recognised when the byte after it is probed too, or when it is
+                // the last byte of a file that fits into the probe
+                i + 1 < probed || b.len() < PROBE_LIMIT
             };
             if certainly_seen {
                 strict_binary = true;
@@ -579,7 +579,10 @@ fn reference_self_test() {
         (b"a\0".to_vec(), Class::Binary),
         (big(b"\r\n"), Class::CrlfText),
         (big(b"\ra"), Class::Unspecified),
-        (big(b"\0"), Class::Unspecified),
+        (big(b"\0"), Class::Binary),
+        (vec![b'a'; PROBE_LIMIT - 2].into_iter().chain(*b"\ra").collect(), Class::Binary),
+        (vec![b'a'; PROBE_LIMIT - 2].into_iter().chain(*b"\r\r").collect(), Class::Binary),
+        (big(b"\r"), Class::Unspecified),
         (big(b"a\0"), Class::Unspecified),
         (vec![b'a'; PROBE_LIMIT - 3].into_iter().chain(*b"\ra").collect(), Class::Binary),
         (vec![b'a'; PROBE_LIMIT - 2].into_iter().chain(*b"\0a").collect(), Class::Binary),
@@ -690,7 +693,7 @@ fn main() {
         .collect(),
         assumptions: vec![
             "\"LF-stored text\" = no NUL and no CR anywhere in the file; \"classified as binary\" = NUL or lone CR in the part of the first 8 KiB that the documented probe always examines (files shorter than 8 KiB: anywhere)".into(),
-            "contents whose only binary evidence sits in the last probed byte or later are documented as potentially misclassified: either treatment is accepted".into(),
+            "contents whose only binary evidence is a CR in the last probed byte or anything after the probe are documented as potentially misclassified: either treatment is accepted".into(),
             "stored CRLF text is outside the statement; the documented behaviour (CRLF on disk, LF after the next snapshot) is checked under separate signatures".into(),
             "beyond the statement: mode none is the identity; in modes input and input-output a new disk file is stored CRLF->LF normalised unless binary (docs/config.md)".into(),
             "outside the bound: other byte values, more than two LFs before the probe limit, files beyond 16 KiB, conflicted files".into(),
